@@ -441,20 +441,9 @@ GEN_PATH = os.path.join(common.COQ, "generated", "LieGen.v")
 
 
 def regenerate(ctx):
-    """translator tie: coq/generated/LieGen.v from the repository under test (fail-closed)"""
-    try:
-        text, lits = pyast_np.translate_lie(common.REPO)
-        if lits != {"lit_1em06": 1e-06}:
-            raise pyast_np.Unsupported("float literals %r (the tie theorems instantiate atol = 1e-06 only)" % lits)
-        if pyast_np.write_if_changed(GEN_PATH, text):
-            ctx.notes.append("coq/generated/LieGen.v regenerated from %s (content changed)" % common.REPO)
-        return []
-    except (pyast_np.Unsupported, OSError, SyntaxError, KeyError, IndexError, AttributeError, TypeError) as e:
-        pyast_np.write_if_changed(GEN_PATH, pyast_np.lie_stub())
-        return [{"kind": "obligation", "failing_input": False, "theorem": "Evo.LieTie.lie_gen_is_model (translator tie)",
-                 "correspondence": "pyast_np: evo/core/lie_algebra.py",
-                 "detail": "translation of the repository under test failed (fail-closed): %s: %s" % (type(e).__name__, e),
-                 "case": None, "model_output": None, "impl_output": None}]
+    """translator tie: coq/generated/LieGen.v from the repository under test (fail-closed, per function)"""
+    from harness import pyast_metrics
+    return pyast_metrics.regenerate_ties(ctx, common.REPO, common.COQ, only=None, metrics=False)
 
 
 def run(ctx, replay=None, proofs_ok=True):
